@@ -1048,7 +1048,8 @@ theorem arc_runFrame (p : Prog) (hh : Hist) {s0 : St} {f : Frame} {rest : List F
     simp only [runFrame, doExclActs]
     split
     · exact quiet _ (by asame0) (fun a => by simp [queueH, hs, frameH, St.push, St.emit])
-    · rename_i a _
+    · exact quiet _ (by asame0) (fun a => by simp [queueH, hs, frameH, St.push])
+    · rename_i a _ _
       refine quiet _ ?_ (fun x => ?_)
       · have := arcSame_enqueue ({ s0 with stack := rest } : St) a
         exact ⟨this.rc, this.tbl, this.dsp, this.ent, this.trk, this.next, this.sigs⟩
